@@ -102,6 +102,13 @@ class BaseElementLocator
         element_addresses_.resize_from_capacity(new_size);
     }
 
+    // describe an empty vector whose block starts at memory_begin
+    void reset(std::byte* memory_begin) noexcept
+    {
+        element_addresses_.resize_from_capacity(0);
+        last_element_ = memory_begin;
+    }
+
     void move_elements_forward(std::size_t from, std::size_t to, std::byte* memory_begin) noexcept
     {
         if (from == element_addresses_.size())
@@ -226,6 +233,8 @@ class BaseAllFixedSizeElementLocator
     constexpr auto data_end(std::byte* memory_begin) const noexcept { return memory_begin + stride_ * element_count_; }
 
     constexpr void resize(std::size_t new_size, const std::byte*) noexcept { element_count_ = new_size; }
+
+    constexpr void reset(const std::byte*) noexcept { element_count_ = {}; }
 
     void move_elements_forward(std::size_t from, std::size_t to, std::byte* memory_begin) const noexcept
     {
